@@ -414,15 +414,19 @@ Lemma mutation_rejected_l funcs k m s e :
 Proof.
   intros H Hc. assert (W := fun idx v => const_write_rejected_l (mut_target m) idx v s e H Hc).
   destruct m as [x v|x o v|pre inc x|a idx v|a idx o v|pre inc a idx]; cbn [mut_target mut_stmt mut_plain] in *.
-  - rewrite exec_assign_eq. unfold bind at 1. rewrite eval_num. unfold ret at 1.
-    unfold bind. rewrite target_var. cbn [fst snd]. rewrite W. split; eauto.
+  - assert (E : exec funcs (S (S (S k))) (SAssign (LVar x) None (ENum v)) s = (Fail EConst, s)).
+    { rewrite exec_assign_eq. unfold bind at 1. rewrite eval_num. unfold ret at 1.
+      unfold bind. rewrite target_var. cbn [fst snd]. apply W. }
+    split; eauto.
   - split; [|discriminate]. rewrite exec_compound_eq. unfold bind at 1. rewrite target_var. cbn [fst snd].
     apply rmw_rejected with (e := e); auto. exists v. rewrite eval_num. reflexivity.
   - split; [|discriminate]. rewrite exec_incdec_eq. unfold bind at 1. rewrite target_var. cbn [fst snd].
     destruct (rmw_rejected x [] (if inc then Add else Sub) (ret 1) s e H Hc) as [er Her]; [exists 1; reflexivity|].
     exists er. rewrite <- Her. reflexivity.
-  - rewrite exec_assign_eq. unfold bind at 1. rewrite eval_num. unfold ret at 1.
-    unfold bind. rewrite target_idx. cbn [fst snd]. rewrite W. split; eauto.
+  - assert (E : exec funcs (S (S (S k))) (SAssign (LIdx a (map ENum idx)) None (ENum v)) s = (Fail EConst, s)).
+    { rewrite exec_assign_eq. unfold bind at 1. rewrite eval_num. unfold ret at 1.
+      unfold bind. rewrite target_idx. cbn [fst snd]. apply W. }
+    split; eauto.
   - split; [|discriminate]. rewrite exec_compound_eq. unfold bind at 1. rewrite target_idx. cbn [fst snd].
     apply rmw_rejected with (e := e); auto. exists v. rewrite eval_num. reflexivity.
   - split; [|discriminate]. rewrite exec_incdec_eq. unfold bind at 1. rewrite target_idx. cbn [fst snd].
